@@ -25,7 +25,7 @@ FLAG_OF = {
     "C01-stale-persister": "d_stale_persister",
 }
 FLAGS = ["d_notify_unsorted", "d_timeout_child_order", "d_first_error_order", "d_bns_after_flush",
-         "d_cache_failed_events", "d_singleton_mem", "d_stale_persister", "d_dst_key_first"]
+         "d_cache_failed_events", "d_singleton_mem", "d_stale_persister", "d_forgets_persister", "d_dst_key_first"]
 
 NCHAINS, NSVC = 8, 3          # seeded chains 0..7, services 0..2 available+ordered, service 4 frozen
 FROZEN = 4
@@ -317,6 +317,11 @@ class Gen:
         if self.r.random() < 0.7:
             bi = self.r.randrange(self.n)
             self.blocks[bi].append([4, self.r.randrange(6), 6, self.r.randrange(NCHAINS), self.r.randrange(NSVC), self.r.randrange(6)])
+        # exported query-like methods of the manager contracts, preferably first in a block after a restart
+        for _ in range(self.r.randrange(1, 4)):
+            bi = self.r.randrange(self.n)
+            self.blocks[bi].insert(0 if bi else len(self.blocks[bi]), [8, self.sender(), self.r.randrange(NMANAGERS), self.r.randrange(24)])
+            self.hints.add(bi)
         self.tags.add("promoted")
 
     def seg_tl_empty(self):
@@ -402,6 +407,36 @@ def gen_history(rng, k, hid, quick):
     return g.build(k, hid)
 
 
+NMANAGERS = 6          # appchain, service, rule, node, role, dapp manager (order of the driver's managerAddrs)
+
+
+def first_call_histories(k, rounds):
+    """restart, then -- as the FIRST call of the new process into a manager contract -- each of its
+    exported query-like *Response methods: replica 0 never restarts, replica 1 restarts before every
+    block, the others alternate.  The registered contract objects are process-wide singletons whose
+    embedded core manager keeps the Persister of the previous call; a method that forgets to re-bind
+    it works on a running node and dies on a restarted one.  Also: an IBTP to another BitXHub
+    (checkBitXHubAvailability -> AppchainManager.IsAvailableBitxhub) right after a restart."""
+    hs = []
+    setup = dict(chains=[0, 1], gas=0, services=[[0, 0, 1, 0], [1, 0, 1, 0]])
+
+    def rs(bi):
+        return [0, 1] + [(bi + j) % 2 for j in range(k - 2)]
+    for c in range(NMANAGERS):
+        blocks = [dict(txs=[[8, 0, c, 1]], restart=[0] * k)]
+        for j in range(rounds):
+            blocks.append(dict(txs=[[8, j % 6, c, j]], restart=rs(j)))
+        hs.append(dict(id="first-call-%d" % c, k=k, genesis="own", setup=setup, groups=[], blocks=blocks,
+                       tags=["first_call_after_restart"], nomodel=True))
+    blocks = [dict(txs=[[8, 0, 0, 2], [2, 1, 0, 0, 1, 0, 1, 0, 0, 0, 0]], restart=[0] * k),
+              dict(txs=[[2, 2, 0, 0, 1, 0, 1, 0, 0, 0, 4]], restart=rs(0)),
+              dict(txs=[[2, 3, 1, 0, 0, 0, 1, 0, 3, 0, 4], [8, 1, 0, 0]], restart=rs(1)),
+              dict(txs=[], restart=[0] * k)]
+    hs.append(dict(id="remote-hub-after-restart", k=k, genesis="own", setup=setup, groups=[], blocks=blocks,
+                   tags=["remote_hub_after_restart"], nomodel=True))
+    return hs
+
+
 def malformed_history(rng, k, hid):
     n = rng.randrange(3, 7)
     g = Gen(rng, n, 0)
@@ -446,20 +481,30 @@ def g_tx(op, o, h):
         if not in_domain_ibtp(op):
             return "(TOpaque %s)" % gbool(ok), False
         flags = op[10] if len(op) > 10 else 0
-        return "(TIbtp %s %s)" % (gbool(flags == 0), g_ibtp(op, h)), True
+        if flags & 4:
+            return "(TOpaque %s)" % gbool(ok), False      # destination on another BitXHub: outside the model
+        return "(TIbtp %s %s)" % (gbool(flags & 3 == 0), g_ibtp(op, h)), True
     if k == 4:
         if op[2] == 3 and op[5] & 2:
             # only meaningful when the call reaches the permission check: it fails either way
-            return "(TPerm S_PERM [1; 2])" if not ok else "(TGov true true [])", True
+            return "(TPerm S_PERM [1; 2])" if not ok else "(TGov true [1] [])", True
         if op[2] == 11:
             return "(TPerm S_ADMIN [1; 2])" if not ok else "(TOpaque true)", True
         evs = o.get("svc_ev") or []
         # a governance call that fails inside the contract is reverted; one that fails at the fee keeps its events
         evl = glist(evs, lambda e: "(%d, %s)" % (svc(e[0], e[1]), g_svcrec(e[2] == 1, e[3] == 1)))
-        tch = op[2] in (3, 4, 5, 6, 7) or bool(evs)
-        return "(TGov %s %s %s)" % (gbool(ok), gbool(tch), evl), True
+        # manager contracts whose methods the call runs (0 appchain, 1 service): static per action, plus the
+        # ServiceManager whenever a SERVICE event was posted
+        tch = []
+        if op[2] in (1, 3, 8, 9, 11):
+            tch.append(0)
+        if op[2] in (3, 4, 5, 6, 7) or evs:
+            tch.append(1)
+        return "(TGov %s %s %s)" % (gbool(ok), glist(tch, str), evl), True
     if k == 5:
         return "TInitCache", True
+    if k == 8:
+        return "(TMgrCall %d false %s)" % (op[2] % NMANAGERS, gbool(ok)), True
     if k == 7:
         if op[2] != 1:
             return "(TOpaque %s)" % gbool(ok), False
@@ -506,6 +551,10 @@ def relabel(vals):
 def g_case(h, out, flags, cands, all_replicas):
     obs0 = out["obs"]
     nblocks = len(obs0)
+    if h.get("nomodel"):
+        # judged on replica agreement only (contains transactions outside the model's domain)
+        digests = glist(out["digests"][:nblocks + 1], lambda blk: glist(blk, lambda f: glist(relabel(f), str)))
+        return "(Build_case %s %d%%nat [] [] %s [[]] [[]])" % (g_cfg(flags), cands, digests), True
     blocks = []
     genesis_seed = []
     indomain = True
@@ -522,7 +571,7 @@ def g_case(h, out, flags, cands, all_replicas):
                 if s[3] == 2:
                     continue
                 seed.append("(K_svc %d, VSvc %s)" % (svc(s[0], s[1]), g_svcrec(s[3] == 0, s[2] != 0)))
-        invalid = [i for i, op in enumerate(b["txs"]) if (op[0] == 2 and len(op) > 10 and op[10] != 0) or (op[0] == 3 and op[2] == 5)]
+        invalid = [i for i, op in enumerate(b["txs"]) if (op[0] == 2 and len(op) > 10 and op[10] & 3 != 0) or (op[0] == 3 and op[2] == 5)]
         blocks.append("(Build_block %s %s)" % (glist(txs), glist(invalid, str)))
         if bi == 0:
             genesis_seed = seed
@@ -655,7 +704,7 @@ def decide(ctx, exe, hs, outs, flags, known, label):
         h, o = hs[i], outs[i]
         nacc = sum(1 for b in o["obs"] for t in (b["txs"] or []) if t["status"] == 0)
         nrej = sum(1 for b in o["obs"] for t in (b["txs"] or []) if t["status"] != 0)
-        sites = [t for t in h.get("tags", []) if t.split(":")[0] in ("group", "shared_timeout", "gov_service", "freeze", "failing_event", "singleton", "perm_first_error", "admin_first_error", "promoted", "tl_empty")]
+        sites = [t for t in h.get("tags", []) if t.split(":")[0] in ("group", "shared_timeout", "gov_service", "freeze", "failing_event", "singleton", "perm_first_error", "admin_first_error", "promoted", "tl_empty", "first_call_after_restart", "remote_hub_after_restart")]
         ctx.count(case_key=("h", json.dumps(h["blocks"], sort_keys=True)), nontrivial=nacc > 0 and nrej > 0 and bool(sites),
                   sample=dict(driver="replicas", id=h["id"], tags=h.get("tags"), blocks=len(h["blocks"]), k=o["k"], agree=o["agree"], verdict=v,
                               first_block=o["obs"][0] if o["obs"] else None))
@@ -751,6 +800,7 @@ def run(ctx):
             hs.append(gen_history(ctx.rng, k, "g%d" % i, ctx.quick))
         for i in range(max(4, n // 8)):
             hs.append(malformed_history(ctx.rng, k, "m%d" % i))
+        hs += first_call_histories(3 if ctx.quick else 4, 14 if ctx.quick else 24)
         total = 0
         for s in range(0, len(hs), 150):
             part = hs[s:s + 150]
